@@ -67,11 +67,22 @@ def decode_cell(v):
   return v
 
 
-def execute(statements, connection=None, decode=True):
-  """Runs statements like sqlite3_logica.RunSqlScript; returns (header, rows)."""
+class SqlTimeout(Exception):
+  pass
+
+
+def execute(statements, connection=None, decode=True, time_limit=None):
+  """Runs statements like sqlite3_logica.RunSqlScript; returns (header, rows).
+
+  time_limit: seconds after which the query is interrupted (SqlTimeout); generated programs can
+  contain large cross products that are of no interest."""
+  import time as _time
   sqlite3_logica = modules()[4]
   own = connection is None
   connect = connection or sqlite3_logica.SqliteConnect()
+  deadline = _time.time() + time_limit if time_limit else None
+  if deadline:
+    connect.set_progress_handler(lambda: 1 if _time.time() > deadline else 0, 200000)
   try:
     cursor = connect.cursor()
     for s in statements[:-1]:
@@ -79,7 +90,13 @@ def execute(statements, connection=None, decode=True):
     cursor.execute(statements[-1])
     rows = cursor.fetchall()
     header = [d[0] for d in cursor.description]
+  except Exception as e:  # pylint: disable=broad-except
+    if deadline and _time.time() > deadline and 'interrupt' in str(e).lower():
+      raise SqlTimeout('query interrupted after %ss' % time_limit)
+    raise
   finally:
+    if deadline:
+      connect.set_progress_handler(None, 0)
     if own:
       connect.close()
   if decode:
@@ -87,13 +104,16 @@ def execute(statements, connection=None, decode=True):
   return header, rows
 
 
-def run_pred(text, pred, user_flags=None, import_root=None, decode=True):
+def run_pred(text, pred, user_flags=None, import_root=None, decode=True, rules=None, time_limit=None):
   """Returns ('ok', header, rows) | (class, message, None).  SQLite errors are class 'SqlError'."""
-  st, res = compile_pred(text, pred, user_flags=user_flags, import_root=import_root)
+  st, res = compile_pred(text, pred, user_flags=user_flags, import_root=import_root, rules=rules)
   if st != 'ok':
     return st, res, None
   try:
-    header, rows = execute([res['preamble']] + res['defines_and_exports'] + [res['main']], decode=decode)
+    header, rows = execute([res['preamble']] + res['defines_and_exports'] + [res['main']], decode=decode,
+                           time_limit=time_limit)
+  except SqlTimeout as e:
+    return 'Timeout', str(e), res['sql']
   except Exception as e:  # pylint: disable=broad-except
     return 'SqlError', '%s: %s' % (type(e).__name__, e), res['sql']
   return 'ok', header, rows
